@@ -10,6 +10,9 @@ func init() {
 		ruleFilterEffect(e, r)
 		ruleGuardShape(e, r)
 		ruleTupleIdentity(e, r)
+		ruleUserIdentityByParts(e, r)
+		ruleRowsErrConsulted(e, r)
+		ruleConditionsPredicateUniform(e, r)
 		ruleTypePrefixDelimited(e, r)
 		r.Rule("sibling-sql-read", "mysql and postgres (same schema) build the same predicates for each tuple read", 4)
 		ruleSiblingSQL(e, r, []string{"read", "ReadUserTuple", "ReadUsersetTuples", "ReadStartingWithUser"}, map[string]bool{"tuple": true})
@@ -253,6 +256,7 @@ func init() {
 		ruleCloneComplete(e, r, []string{"internal/graph", "internal/check", "pkg/server/commands/reverseexpand"})
 		// the fail-closed core of condition evaluation is shared with C25
 		ruleConditionEval(e, r)
+		ruleStrategyPredicateRejectsOverweight(e, r)
 	})
 	describe("C01", meta{
 		Decides:    "(1) rewrite dispatch in the default engine and the typesystem is total over the six rewrite kinds (reviewed subsets frozen with reasons); (2) every iterator or tuple the default engine, ListUsers and reverse expansion obtain from a tuple reader passes FilterInvalidTuples/ValidateTupleForRead and a condition evaluation before use, and checkDirectUserTuple sets Allowed only behind both; (3) condition evaluation is fail-closed (C25 rules) and every caller consumes its error; (4) the sub-problem request clones (graph, check, reverse expand) assign every field of their struct.",
@@ -420,6 +424,7 @@ func init() {
 		ruleRewriteDispatch(e, r, []string{luPkg}, nil, "listusers-dispatch-total", "expandRewrite covers every rewrite kind (unknown kinds fail)", 1)
 		ruleListUsers(e, r)
 		ruleReadSitesFiltered(e, r, map[string]bool{"v1": true}, 8)
+		ruleExcludedUsersForwarded(e, r)
 	})
 	describe("C06", meta{
 		Decides:    "expandRewrite is total over rewrite kinds; expand evaluates a rewrite only behind !enteredCycle with a key of object and relation; both datastore reads pass the model filter and a condition evaluation with the error consumed; intersection bookkeeping gives one vote per operand (counts change by exactly 1, send only when count+wildcards == operands); the wildcard-base branch of exclusion reports a positive only when neither the user nor the wildcard is subtracted (reviewed reference).",
@@ -436,6 +441,8 @@ func init() {
 		ruleV2ContextualPairing(e, r)
 		ruleMergeComparator(e, r)
 		ruleContextualTuplesValidated(e, r)
+		ruleExistentialSearchLoops(e, r, []string{"pkg/storage/storagewrappers"}, 1)
+		ruleContextualListNoPositionalAssumption(e, r)
 	})
 	describe("C04", meta{
 		Decides:    "(1) the per-request reader is a CombinedTupleReader built from the request's contextual tuples on top of the shared layers, and no shared cache/iterator/bounded reader is ever built on top of one; (2) CombinedTupleReader has its own four read methods, each reading the contextual tuples; (3) the datastore's Write is reached only from the Write command with the request's writes/deletes; (4) every datastore read of the weighted-graph engine is paired with a contextual-tuple lookup, and the stored/contextual merge comparator is the reviewed one; (5) contextual tuples are validated before use (C18 rule) and are part of every decision-cache key (C24, C07 rules).",
@@ -454,6 +461,9 @@ func init() {
 		ruleMergeComparator(e, r)
 		ruleCloneComplete(e, r, []string{"internal/check"})
 		ruleConditionFilterInstalled(e, r)
+		ruleExistentialSearchLoops(e, r, []string{"pkg/server/commands/v2breaking", "pkg/typesystem"}, 4)
+		ruleWalkHandlerResults(e, r)
+		ruleSingleEdgeFromLoop(e, r)
 	})
 	describe("C03", meta{
 		Decides:    "(1) every dispatch of the weighted-graph engine over edge/node kinds is total or fails closed (ErrPanicRequest is non-terminal, so the server falls back); (2) in Server.Check a non-terminal v2 error can only be answered through the default engine's Execute, the terminal set is the reviewed one, both reporting sites consult the detector and the detector knows every Err…InvalidRequest sentinel; (3) engine-internal invariants found defective or fragile while reading: stateful de-duplication filter last (F5), negative results cached only when visited-independent (F4), raw visited map only behind usesVisited, contextual pairing of every read, the stored/contextual merge comparator, complete request clones.",
@@ -462,6 +472,7 @@ func init() {
 	techniques["C03"] = "enum exhaustiveness, cut reachability of the fallback path, sentinel/detector table agreement"
 	register("C02", "Check and ListObjects answers do not depend on strategy or tuning", func(e *Engine, r *Reporter) {
 		ruleStrategyGuards(e, r)
+		ruleStrategyPredicateRejectsOverweight(e, r)
 		ruleTuningNotInDecisions(e, r)
 		ruleSharedFillContext(e, r)
 		ruleStatefulFilterLast(e, r)
